@@ -56,6 +56,7 @@ type Report struct {
 	SelectRewritten     int      `json:"select_rewritten"`
 	TimeNowSites        []string `json:"time_now_sites"`
 	RandSites           []string `json:"rand_sites"`
+	RandRewritten       int      `json:"rand_calls_rewritten"`
 	AfterFuncSites      []string `json:"afterfunc_sites"`
 	CondWaitSites       []string `json:"cond_uncontrolled_sites"`
 	CondRewritten       int      `json:"cond_calls_rewritten"`
@@ -387,6 +388,8 @@ func instrumentFile(p *packages.Package, f *ast.File, path string) *fileEdits {
 					fe.add(off(x.Go), off(x.Call.Pos()), "verifsim.Go(")
 					fe.add(off(x.Call.Lparen), off(x.Call.Rparen)+1, ")")
 					rep.GoRewritten++
+				} else if rewriteGoCall(fe, info, x, off) {
+					rep.GoRewritten++
 				} else {
 					rep.GoUncontrolled = append(rep.GoUncontrolled, where(x.Pos()))
 				}
@@ -430,6 +433,7 @@ func instrumentFile(p *packages.Package, f *ast.File, path string) *fileEdits {
 		return true
 	})
 	// second pass: things that need every statement-level decision made
+	randKeep := map[string]bool{}
 	ast.Inspect(f, func(n ast.Node) bool {
 		switch x := n.(type) {
 		case *ast.RangeStmt:
@@ -482,7 +486,22 @@ func instrumentFile(p *packages.Package, f *ast.File, path string) *fileEdits {
 							if sel.Sel.Name == "AfterFunc" {
 								rep.AfterFuncSites = append(rep.AfterFuncSites, where(x.Pos()))
 							}
-						case "math/rand", "math/rand/v2", "crypto/rand":
+						case "math/rand", "math/rand/v2":
+							// top-level generator functions → the seeded seam (verifsim/randseam.go)
+							seam := map[string]string{"Int": "RandInt", "Intn": "RandIntn", "IntN": "RandIntn", "Int63": "RandInt63", "Int63n": "RandInt63n",
+								"Int64": "RandInt63", "Int64N": "RandInt63n", "Int31": "RandInt31", "Int31n": "RandInt31n", "Int32": "RandInt31", "Int32N": "RandInt31n",
+								"Uint32": "RandUint32", "Uint64": "RandUint64", "Float64": "RandFloat64", "Float32": "RandFloat32", "Perm": "RandPerm", "Shuffle": "RandShuffle"}
+							if to, ok := seam[sel.Sel.Name]; ok {
+								fe.add(off(x.Fun.Pos()), off(x.Fun.End()), "verifsim."+to)
+								rep.RandRewritten++
+								if !randKeep[id.Name] { // the import must stay used
+									randKeep[id.Name] = true
+									fe.add(len(src), len(src), "\nvar _ = "+id.Name+".Int\n")
+								}
+							} else {
+								rep.RandSites = append(rep.RandSites, where(x.Pos()))
+							}
+						case "crypto/rand":
 							rep.RandSites = append(rep.RandSites, where(x.Pos()))
 						}
 					}
@@ -499,6 +518,70 @@ func instrumentFile(p *packages.Package, f *ast.File, path string) *fileEdits {
 	nameEnd := off(f.Name.End())
 	fe.add(nameEnd, nameEnd, fmt.Sprintf("; import verifsim %q", modPath+"/verifsim"))
 	return fe
+}
+
+// rewriteGoCall turns `go F(A0, A1)` into
+//
+//	func() { __vf := F; __va0 := A0; __va1 := A1; verifsim.Go(func() { __vf(__va0, __va1) }) }()
+//
+// with insert-only edits (text inside F and the arguments keeps its own edits): the function value
+// and the arguments are evaluated where the go statement stands, as Go does. Untyped constants and
+// nil are repeated in the inner call instead of being bound to a variable (which would fix a type).
+func rewriteGoCall(fe *fileEdits, info *types.Info, x *ast.GoStmt, off func(token.Pos) int) bool {
+	call := x.Call
+	if tv, ok := info.Types[call.Fun]; !ok || tv.IsType() || tv.IsBuiltin() {
+		return false // conversion or builtin
+	}
+	if _, ok := info.TypeOf(call.Fun).Underlying().(*types.Signature); !ok {
+		return false
+	}
+	var inner []string
+	type bind struct {
+		arg  ast.Expr
+		name string
+	}
+	var binds []bind
+	for i, a := range call.Args {
+		tv, ok := info.Types[a]
+		if !ok {
+			return false
+		}
+		if _, isTuple := tv.Type.(*types.Tuple); isTuple {
+			return false // f(g()) with a multi-value g
+		}
+		if tv.Value != nil || tv.IsNil() { // a constant (recorded with its converted type) or nil
+			if containsFuncLit(a) {
+				return false
+			}
+			inner = append(inner, string(fe.src[off(a.Pos()):off(a.End())]))
+			binds = append(binds, bind{a, ""})
+			continue
+		}
+		name := fmt.Sprintf("__va%d", i)
+		binds = append(binds, bind{a, name})
+		inner = append(inner, name)
+	}
+	if call.Ellipsis.IsValid() && len(inner) > 0 {
+		if binds[len(binds)-1].name == "" {
+			return false
+		}
+		inner[len(inner)-1] += "..."
+	}
+	fe.add(off(x.Go), off(call.Pos()), "func() { __vf := ")
+	// from the end of F to the end of the call: "(" A0 "," A1 ")" becomes "; __va0 := " A0 "; __va1 := " A1 "; verifsim.Go(...) }()"
+	prev := call.Fun.End()
+	for _, b := range binds {
+		if b.name == "" {
+			// drop the constant's text here (it is repeated in the inner call)
+			fe.add(off(prev), off(b.arg.End()), strings.Repeat("\n", strings.Count(string(fe.src[off(prev):off(b.arg.End())]), "\n")))
+		} else {
+			fe.add(off(prev), off(b.arg.Pos()), "; "+b.name+" := "+strings.Repeat("\n", strings.Count(string(fe.src[off(prev):off(b.arg.Pos())]), "\n")))
+		}
+		prev = b.arg.End()
+	}
+	tail := "; verifsim.Go(func() { __vf(" + strings.Join(inner, ", ") + ") }) }()"
+	fe.add(off(prev), off(call.Rparen)+1, strings.Repeat("\n", strings.Count(string(fe.src[off(prev):off(call.Rparen)+1]), "\n"))+tail)
+	return true
 }
 
 const (
